@@ -138,6 +138,7 @@ type Rec struct {
 	violKinds     map[string]int
 	known         map[string]bool
 	notes         []string
+	driveOK       bool // set by Drive: rapid ran all its cases and none violated the property
 }
 
 const maxSeen = 4 << 20
@@ -351,6 +352,9 @@ type ShardResult struct {
 func (r *Rec) Finish(completed bool) {
 	r.mu.Lock()
 	defer r.mu.Unlock()
+	if r.driveOK && len(r.violations) == 0 {
+		completed = true
+	}
 	os.MkdirAll(r.Env.OutDir, 0o755)
 	hf := filepath.Join(r.Env.OutDir, fmt.Sprintf("hashes-%s-%d.bin", r.Env.Job, r.Env.Shard))
 	hs := make([]uint64, 0, len(r.seen))
